@@ -30,7 +30,7 @@ PROPS = {
         "trusted_base": [MODEL_FILES, "checked-slice layer lean/I2P/Checked.lean refines the pure model (Props/C04.lean)"],
     },
     "C05": {
-        "suites": "STRUCT",
+        "suites": "STRUCT,C05",
         "assumptions": COMMON_ASSUME + [
             "signature unforgeability is computational and not a theorem; the data-flow statement (which key, which bytes, which prefix) is what is checked",
             "independent verification uses the Go standard library (Ed25519, ECDSA) and go-i2p/crypto (DSA), both outside /repo",
@@ -114,5 +114,26 @@ PROPS = {
             "the zero-value half is complete (finite domain enumerated by reflection on every run); the failed-parse half is explored by the generated truncations/mutations, not proved",
         ],
         "trusted_base": ["exhaustive reflective sweep `harness observe` (Gen/Observed.lean) and the API translator /verif/extract (Gen/Api.lean)"],
+    },
+    "C16": {
+        "suites": "C16",
+        "assumptions": COMMON_ASSUME + [
+            "the primitives are parameters of the model (EncScheme/BlindScheme); every fact about them is a named hypothesis: "
+            "laws DhComm, DhDefined, PubLen, TagLen, CtLen, AeadCorrect, BlindLen; idealisations (computational security stated "
+            "absolutely, per session) AeadAuthAt, AeadWrongKeyAt, DeriveInj, DhInjOn canon, BlindInj",
+            "AeadCorrect and AeadAuthAt cannot hold together (whoever knows the key can seal): roundtrip and tamper_partial are "
+            "proved under separate hypothesis sets, each shown satisfiable",
+            "tamper_partial excludes replacement ephemeral keys outside `canon` (X25519 ignores bit 255: D10) and blobs that "
+            "change the ephemeral key and the rest at once (a fresh encryption to the same recipient decrypts by design)",
+            "'a different private key' is read as a key denoting a different X25519 scalar: keys differing only in the bits "
+            "RFC 7748 clamping discards are the same key (their acceptance is counted, not judged)",
+            "the auth cookie is length-checked only and not bound to the ciphertext (DESIGN.md); 'all cookies' is vacuous",
+            "independent recomputation uses golang.org/x/crypto (curve25519, hkdf, chacha20poly1305) and filippo.io/edwards25519 "
+            "directly, outside /repo and go-i2p/crypto",
+            "Time.UTC().Format(\"2006-01-02\") is modelled by a civil-from-days algorithm (Crypto16.civil), validated "
+            "differentially on every run (op utcDay) for years -1000..11000",
+        ],
+        "trusted_base": ["model file: lean/I2P/Crypto16.lean (data flow of encryption.go and blinding.go; primitives abstract)",
+                         "model file: lean/I2P/Structs.lean (readLeaseSet2)"],
     },
 }
